@@ -267,7 +267,6 @@ func init() {
 	}
 }
 
-
 // classifyMiss gives an oracle failure a signature that identifies the failing input shape; the
 // `check` script matches it against known_findings.jsonl.
 func classifyMiss(sc Scenario, step int, obs []StepObs) string {
